@@ -33,7 +33,7 @@ def run_os(prop, tier, seed, runs, builds, own_guards, crash_decisive=True, grou
     for i, r in enumerate(runs):
         b = r.get("build") or builds[i % len(builds)]
         out = os.path.join(od, "t_%s_%d.ndjson" % (b, i))
-        s = seed * 100003 + i
+        s = r.get("seed", seed * 100003 + i)        # (a run may pin its own seed: regression scenarios)
         cmd = [exes[b], "--out", out, "--seed", str(s), "--segs", "1"] + list(r["args"])
         traces.append((out, b, r.get("tag", ""), r))
         jobs.append((lambda cmd=cmd, env=r.get("env"): vlib.sh(cmd, timeout=driver_timeout, env=env)))
